@@ -130,7 +130,7 @@ def put_events(facts, put):
             dl = c.dst_local()
             for blk in range(len(put.blocks)):
                 cd = cond_of(put, blk)
-                if cd and cd["kind"] == "is_null" and cd.get("arg") in fl.copies_of(dl):
+                if cd and cd["kind"] in ("is_null", "is_none") and cd.get("arg") in fl.copies_of(dl):
                     edges[(blk, cd["true"])] = "tree insert (null returned)"
     return calls, edges
 
@@ -410,6 +410,20 @@ def pow2(body, op, facts, depth=0, seen=None, at=None, needs=None):
             for p2, k2, d2 in body.defs.get(data["local"], []):
                 if k2 == "assign" and "bin" in d2["rv"]:
                     ok, d = pow2_bin(body, d2["rv"], facts, depth, seen, at=p2, needs=needs_out)
+        elif kind == "view":
+            # the payload of a checked conversion / checked arithmetic (`.expect(..)`, `.unwrap()`): as the Option / Result it came from
+            ok, d = pow2(body, {"copy": {"local": data[1], "proj": []}}, facts, depth + 1, seen, at=pt, needs=needs_out)
+        elif kind == "call" and callee_str(data).rsplit("::", 1)[-1] in ("expect", "unwrap", "unwrap_unchecked") and data.args and \
+                callee_str(data).rsplit("::", 2)[-2:-1] in (["Result"], ["Option"]):
+            ok, d = pow2(body, data.args[0], facts, depth + 1, seen, at=pt, needs=needs_out)
+        elif kind == "call" and callee_str(data).rsplit("::", 1)[-1] in ("try_from", "try_into", "from", "into") and len(data.args) == 1:
+            ok, d = pow2(body, data.args[0], facts, depth + 1, seen, at=pt, needs=needs_out)      # value-preserving where it succeeds
+        elif kind == "call" and callee_str(data).rsplit("::", 1)[-1] in ("checked_mul", "checked_shl", "wrapping_mul", "wrapping_shl") and len(data.args) == 2:
+            k = data.args[1].get("int")
+            nm = callee_str(data).rsplit("::", 1)[-1]
+            okk = k is not None and (nm.endswith("shl") or (k > 0 and k & (k - 1) == 0))
+            ok, d = pow2(body, data.args[0], facts, depth + 1, seen, at=pt, needs=needs_out)
+            ok, d = ok and okk, "(%s).%s(%s)" % (d, nm, k)
         elif kind == "call":
             c = data
             s = callee_str(c)
@@ -739,7 +753,7 @@ def rule_q5(ctx, facts):
 
 def run(ctx, facts):
     ctx.rule("Q8", "iteration visits every node of a bin: NodeIter::next yields the successor of the last node whenever the link is non-null "
-                   "(rule T5 of C07) -- otherwise iteration yields fewer keys than len() counts and lookups find", floor=1)
+                   "(rule T5 of C07) -- otherwise iteration yields fewer keys than len() counts and lookups find", floor=3)
     from .rules_c07 import rule_t5
     rule_t5(ctx, facts, rule="Q8")
     ctx.rule("Q7", "lock -> re-validate the head -> only then link / unlink / count (rule L1 of C01): a removal made on a bin that a resize has "
